@@ -1,5 +1,5 @@
 CONSTANTS
-  MaxOps = 3
+  MaxOps = 2
   Dump = FALSE
 INIT Init
 NEXT Next
